@@ -67,7 +67,7 @@ BOUND = {
                 "aliases: every combination of {default} + 2-3 non-default values per keyword on every file of the format",
 }
 TIME_CAP = {"quick": 240, "thorough": 1800}
-BOUND["quick"] += '; ListOfDicts readers also on a JSON file whose key holds equal values of different types (10, 10.0, true, 1, 0, 0.0) and a CSV file whose header repeats a name; first 3 casts per menu'
+BOUND["quick"] += '; ListOfDicts readers also on a JSON file whose key holds equal values of different types (10, 10.0, true, 1, 0, 0.0) and a CSV file whose header repeats a name; first 3 casts per menu; a JSON file whose missing numbers and booleans are the literal NaN; whole numbers next to a missing value asked for as int'
 BOUND["thorough"] += "; plus the additions listed for the quick tier"
 
 # ---------------------------------------------------------------------------
@@ -83,6 +83,7 @@ TABLES = {
     "T3f": [["a", "int", [1, 2, 3]], ["b", "str", [None, "y", "z"]], ["c", "float", [None, 2.5, None]]],
     # a date column in the quick tier too (casts between datetime units), and falsy values 0 / false that a cast must not skip
     "T7": [["t", "date", ["2020-02-29", "1970-01-01"]], ["n", "int", [0, 5]], ["e", "bool", [False, True]]],
+    "T8n": [["n", "int", [1, None]], ["e", "bool", [True, None]], ["c", "float", [None, 1.5]]],
     "T4": [["a", "int", [0, 2, 3]], ["b", "str", ["x", None, "z"]], ["d", "str", ["7", "8", "9"]], ["e", "bool", [True, False, True]]],
     # JSON only: values that are objects / lists of objects whose own members are named like top-level keys
     "T6": [["id", "int", [7, 8]], ["host", "obj", [{"id": 1, "name": "h"}, {"name": "g", "tags": [{"id": 3, "x": 1}]}]], ["name", "str", ["p", "q"]]],
@@ -128,6 +129,10 @@ def files_for(fmt, tier):
                 out.append({"fmt": fmt, "cols": cols, "ragged": False, "permuted": True, "encoding": "utf-8"})
             if t == "T2":
                 out.append({"fmt": fmt, "cols": cols, "ragged": False, "encoding": "latin-1"})
+            if t == "T2" and fmt == "json":
+                # missing numbers / booleans written as the literal NaN (Python's json module writes and reads it): a missing
+                # value that arrives as a float, not as None (seeded C14-r12-1)
+                out.append({"fmt": fmt, "cols": TABLES["T8n"], "ragged": False, "nanliteral": True, "encoding": "utf-8"})
         elif fmt == "parquet":
             out.append({"fmt": "parquet", "cols": cols})
         elif fmt == "npz":
@@ -177,7 +182,7 @@ def records(f):
         for name, kind, vals in cols:
             if vals[i] is None and f.get("ragged"):
                 continue
-            item[name] = vals[i]
+            item[name] = float("nan") if vals[i] is None and f.get("nanliteral") and kind in ("int", "float", "bool") else vals[i]
         if f.get("permuted") and i % 2 == 1:
             item = dict(reversed(list(item.items())))  # same keys, listed in another order than in the first record
         out.append(item)
@@ -336,6 +341,10 @@ def df_cast_menu(dtname, cells):
         return ["float", "str", "object", "int"]
     if dtname == "float64":
         integral = any(float(x).is_integer() for x in cells if x is not None)
+        if missing and cells and all(float(x).is_integer() for x in cells if x is not None):
+            # whole numbers next to a missing value, asked for as int: the missing value must stay missing (the column is
+            # widened to hold it) whether it was written as null or as the literal NaN
+            return ["int", "float", "object"]
         return ["float", "object"] if integral else ["str", "float", "object"]
     if dtname == "bool":
         return ["int", "str", "float", "object"]
@@ -531,6 +540,8 @@ def check_restrict(case, rec):
                 if cmap and n in cmap:
                     cells = ref_cast_df(cells, cmap[n])
                     dt = DTYPE_NAME.get(cmap[n], cmap[n])
+                    if cmap[n] == "int" and any(x is None for x in cells):
+                        dt = "float64"   # integers widen to float to hold the missing value (C10)
                 gdt, gcells = got[n]
                 # '' is the string missing value: '' == None wherever a string crosses a boundary (DESIGN 3.4),
                 # also inside an object column (str -> object keeps '' in both the reader and astype(object))
